@@ -1,4 +1,176 @@
-/- Model driver for C15 (stub: not built yet). -/
+/-
+Model driver for C15 (id sets, relation maps, item stash).  One op per line:
+
+  D <w> <cb> set|unset|cas|get <id>      IdSetDense<uint<w>_t, cb>: ok | ok | 0/1 | 0/1
+  D <w> <cb> size|empty|clear|copy|iter   n | 0/1 | ok | ok | "<count> id id ..." (error = UB/fuel)
+  S set|get|getb <id> ; S sortu|size|list|clear ; S merge id id ...        IdSetSmall<uint64_t>
+  R reset ; R add <member> <parent> ; R size ; R build m2p|p2m|both ; R look m2p|p2m <k>
+  I new <initial_buffer_size> ; I add <hex payload> ; I get <h> ; I rm <h> ; I gc ; I clear ; I size
+        ; I idx
+-/
+import Osmium.Model.IdSet
+import Osmium.Model.RelMap
+import Osmium.Model.Stash
 import Driver.Common
 
-def main : IO Unit := pure ()
+open Driver
+open Osmium
+
+structure St where
+  dense : List ((Nat × Nat) × IdSet.Dense) := []
+  small : IdSet.Small := []
+  rel : RelMap.Stash := {}
+  m2p : Option RelMap.Index := none
+  p2m : Option RelMap.Index := none
+  stash : Stash.State := Stash.init 0
+
+def getDense (st : St) (k : Nat × Nat) : IdSet.Dense :=
+  match st.dense.lookup k with
+  | some d => d
+  | none => {}
+
+def putDense (st : St) (k : Nat × Nat) (d : IdSet.Dense) : St :=
+  { st with dense := (k, d) :: st.dense.filter (fun e => e.1 != k) }
+
+def natList (l : List Nat) : String :=
+  " ".intercalate (toString l.length :: l.map toString)
+
+def stepDense (st : St) (w cb : Nat) (rest : List String) : St × String :=
+  let d := getDense st (w, cb)
+  let k := (w, cb)
+  match rest with
+  | [op, ids] =>
+    match ids.toNat? with
+    | none => (st, "bad-op")
+    | some id =>
+      if id ≥ 2 ^ w then (st, "bad-op") else
+      match op with
+      | "set" => (putDense st k (IdSet.step w cb d (.set id)).1, "ok")
+      | "unset" => (putDense st k (IdSet.step w cb d (.unset id)).1, "ok")
+      | "cas" =>
+        match IdSet.step w cb d (.checkAndSet id) with
+        | (d', .bool b) => (putDense st k d', b01 b)
+        | _ => (st, "bad-op")
+      | "get" => (st, b01 (IdSet.get cb d id))
+      | _ => (st, "bad-op")
+  | ["size"] => (st, toString d.size)
+  | ["empty"] => (st, b01 (IdSet.empty d))
+  | ["clear"] => (putDense st k (IdSet.clear d), "ok")
+  | ["copy"] => (putDense st k (IdSet.copy d), "ok")
+  | ["iter"] =>
+    match IdSet.toList w cb d with
+    | none => (st, "error")
+    | some l => (st, natList l)
+  | _ => (st, "bad-op")
+
+def stepSmall (st : St) (rest : List String) : St × String :=
+  let s := st.small
+  match rest with
+  | ["sortu"] => ({ st with small := IdSet.Small.sortUnique s }, "ok")
+  | ["size"] => (st, toString s.length)
+  | ["list"] => (st, natList s)
+  | ["clear"] => ({ st with small := [] }, "ok")
+  | "merge" :: ids =>
+    match ids.mapM String.toNat? with
+    | none => (st, "bad-op")
+    | some o =>
+      -- the other set: set() each id, sort_unique()
+      let other := IdSet.Small.sortUnique (o.foldl IdSet.Small.set [])
+      ({ st with small := IdSet.Small.mergeSorted s other }, "ok")
+  | [op, ids] =>
+    match ids.toNat? with
+    | none => (st, "bad-op")
+    | some id =>
+      match op with
+      | "set" => ({ st with small := IdSet.Small.set s id }, "ok")
+      | "get" => (st, b01 (IdSet.Small.get s id))
+      | "getb" => (st, b01 (IdSet.Small.getBinarySearch s id))
+      | _ => (st, "bad-op")
+  | _ => (st, "bad-op")
+
+def ixInfo (ix : RelMap.Index) : String :=
+  s!"{ix.size} {b01 ix.empty}"
+
+def stepRel (st : St) (rest : List String) : St × String :=
+  match rest with
+  | ["reset"] => ({ st with rel := {}, m2p := none, p2m := none }, "ok")
+  | ["add", a, b] =>
+    match a.toNat?, b.toNat? with
+    | some m, some r =>
+      if m ≥ 2 ^ 64 || r ≥ 2 ^ 64 then (st, "bad-op")
+      else ({ st with rel := st.rel.add m r }, "ok")
+    | _, _ => (st, "bad-op")
+  | ["size"] => (st, s!"{st.rel.size} {st.rel.sizes.1} {st.rel.sizes.2} {b01 st.rel.empty}")
+  | ["build", "m2p"] =>
+    let ix := st.rel.buildMemberToParent
+    ({ st with m2p := some ix }, ixInfo ix)
+  | ["build", "p2m"] =>
+    let ix := st.rel.buildParentToMember
+    ({ st with p2m := some ix }, ixInfo ix)
+  | ["build", "both"] =>
+    let (a, b) := st.rel.buildIndexes
+    ({ st with m2p := some a, p2m := some b }, ixInfo a ++ " " ++ ixInfo b)
+  | ["look", which, ks] =>
+    match ks.toNat? with
+    | none => (st, "bad-op")
+    | some k =>
+      if k ≥ 2 ^ 64 then (st, "bad-op") else
+      let ix := if which == "m2p" then st.m2p else st.p2m
+      match ix with
+      | none => (st, "no-index")
+      | some ix => (st, natList (ix.forEach k))
+  | _ => (st, "bad-op")
+
+def idxStr (l : List Nat) : String :=
+  " ".intercalate (toString l.length :: l.map fun x => if x == Stash.REMOVED then "-" else toString x)
+
+def stepStash (st : St) (rest : List String) : St × String :=
+  let s := st.stash
+  match rest with
+  | ["new", n] =>
+    match n.toNat? with
+    | none => (st, "bad-op")
+    | some ibs => let s' := Stash.init ibs; ({ st with stash := s' }, s!"ok {s'.capacity}")
+  | ["add", h] =>
+    match unhex h with
+    | none => (st, "bad-op")
+    | some p =>
+      match Stash.step s (.add p) with
+      | (s', .handle hd) =>
+        ({ st with stash := s' }, s!"{hd} {s'.countItems} {s'.countRemoved} {Stash.committed s'} {s'.capacity}")
+      | _ => (st, "ub")
+  | ["get", h] =>
+    match h.toNat? with
+    | none => (st, "bad-op")
+    | some h =>
+      match Stash.step s (.get h) with
+      | (_, .item sz rm p) => (st, s!"{sz} {b01 rm} {hex p}")
+      | _ => (st, "ub")
+  | ["rm", h] =>
+    match h.toNat? with
+    | none => (st, "bad-op")
+    | some h =>
+      match Stash.step s (.remove h) with
+      | (s', .unit) => ({ st with stash := s' }, s!"ok {s'.countItems} {s'.countRemoved}")
+      | _ => (st, "ub")
+  | ["gc"] =>
+    match Stash.step s .gc with
+    | (s', .unit) => ({ st with stash := s' }, s!"ok {s'.countItems} {s'.countRemoved} {Stash.committed s'} {s'.capacity}")
+    | _ => (st, "ub")
+  | ["clear"] => ({ st with stash := Stash.clear s }, "ok")
+  | ["size"] => (st, s!"{s.countItems} {s.countRemoved}")
+  | ["idx"] => (st, idxStr s.index)
+  | _ => (st, "bad-op")
+
+def step (st : St) (line : String) : St × String :=
+  match words line with
+  | "D" :: w :: cb :: rest =>
+    match w.toNat?, cb.toNat? with
+    | some w, some cb => stepDense st w cb rest
+    | _, _ => (st, "bad-op")
+  | "S" :: rest => stepSmall st rest
+  | "R" :: rest => stepRel st rest
+  | "I" :: rest => stepStash st rest
+  | _ => (st, "bad-op")
+
+def main : IO Unit := loop step {}
